@@ -100,3 +100,10 @@ Definition model_trace (c : syscase) : list obs :=
   match case_world c with None => [] | Some w => run w (sc_dyn c) (sc_ops c) end.
 Definition model_trace_alias (c : syscase) : list obs :=
   match case_world c with None => [] | Some w => run_alias_trace w (sc_dyn c) (sc_ops c) end.
+
+(* ---- function-level correspondence: clientutil.AreScopesAllowed, token.containsAllScopes ---- *)
+Record scopecase := mkScopeCase { fc_client : string; fc_avail : list scope; fc_req : string; fc_allowed : bool;
+                                  fc_granted : string; fc_contains : bool }.
+Definition check_scope_case (c : scopecase) : N :=
+  if negb (Bool.eqb (are_scopes_allowed (fc_client c) (fc_avail c) (fc_req c)) (fc_allowed c)) then 1
+  else if negb (Bool.eqb (contains_all_scopes (fc_granted c) (fc_req c)) (fc_contains c)) then 2 else 0.
